@@ -4698,9 +4698,12 @@ class Parser:
         if not skip_join_token and not join and not outer_apply and not cross_apply:
             return None
 
-        kwargs: dict[str, t.Any] = {
-            "this": self._parse_table(parse_bracket=parse_bracket, alias_tokens=alias_tokens)
-        }
+        table = self._parse_table(parse_bracket=parse_bracket, alias_tokens=alias_tokens)
+        if not skip_join_token and not join and self._index == index:
+            # APPLY was only peeked: if the table parser didn't consume it, there's no join here
+            return None
+
+        kwargs: dict[str, t.Any] = {"this": table}
         if kind and kind.token_type == TokenType.ARRAY and self._match(TokenType.COMMA):
             kwargs["expressions"] = self._parse_csv(
                 lambda: self._parse_table(parse_bracket=parse_bracket, alias_tokens=alias_tokens)
